@@ -17,7 +17,7 @@ import numpy as np
 
 import sim  # noqa: F401
 from sim import build
-from sim.core import attempt, deep_tier, exc_tag
+from sim.core import attempt, bulk_tier, deep_tier, exc_tag
 from sim.oracle import (arrays_equal, carry_over, first_diff, hist_arrays, locate, missed_tuple, num_equal,
                         wellformed_problems)
 
@@ -116,6 +116,13 @@ def generate(rng, seed, part):
     n = rng.choice([1, 2, 3, 5, 8, 12, 20, 40])
     if deep_tier(rng):
         n = rng.choice([60, 120, 200])
+    bulk = bulk_tier(rng) and rng.random() < 0.7
+    if bulk:
+        # thousands of rows, delivered in a few batches of thousands: size-dependent paths of fill_n
+        n = rng.choice([2500, 5000, 9000])
+        cfg["bulk"] = True
+        if cfg["dtype"] == "int16":
+            cfg["dtype"] = "int32"
     entries = []
     for _ in range(n):
         vals = [bounded(rng, ax["width"], ax["shift"] or 0.0, cap, ax.get("base_k", 0)) for ax in axes]
@@ -130,11 +137,13 @@ def generate(rng, seed, part):
     conts = ["list", "ndarray", "tuple", "iter"] if ndim == 1 else ["list", "ndarray", "columns"]
     while i < n:
         vt = "f32" if (cfg["vtype"] == "f32" and rng.random() < 0.6) else None
-        if rng.random() < 0.5:
+        if rng.random() < (0.03 if bulk else 0.5):
             ops.append({"op": "fill", "i": i, "vt": vt})
             i += 1
         else:
             k = rng.randint(1, min(10, n - i))
+            if bulk:
+                k = min(n - i, rng.choice([5, 100, 2048, 2500, 4096, n]))
             idx = list(range(i, i + k))
             rng.shuffle(idx)
             op = {"op": "fill_n", "idx": idx, "cont": rng.choice(conts), "vt": vt}
